@@ -237,12 +237,14 @@ pub fn replay_sweep(i: u64, tier: Tier, stats: &mut Stats) -> Result<(), Failure
 // Deep valid inputs for parse_float itself (child process of the supervisor, 2 MiB thread, every build incl.
 // the unoptimised one): stack use must not grow with the number of digits.
 
-pub const DEEP_KINDS: [&str; 5] = [
+pub const DEEP_KINDS: [&str; 7] = [
     "integer of nines",
     "fraction of threes",
     "1, then integer zeros, compensating exponent",
     "leading fraction zeros, then 7, compensating exponent",
     "tie 9007199254740993 + integer zeros + fraction 1, compensating exponent",
+    "the largest finite f64 written out, then integer zeros, compensating exponent",
+    "4.9406564584124654e-324 written as 49406564584124654 + integer zeros, compensating exponent",
 ];
 
 pub fn deep_check(kind: usize, n: usize) -> Result<(), String> {
@@ -259,10 +261,20 @@ pub fn deep_check(kind: usize, n: usize) -> Result<(), String> {
             f.push(b'7');
             (vec![], f, n as i32)
         }
-        _ => {
+        4 => {
             let mut i = b"9007199254740993".to_vec();
             i.extend(std::iter::repeat(b'0').take(n));
             (i, b"1".to_vec(), -(n as i32))
+        }
+        5 => {
+            let mut i = b"17976931348623157".to_vec();
+            i.extend(std::iter::repeat(b'0').take(n));
+            (i, vec![], 292 - n as i32)
+        }
+        _ => {
+            let mut i = b"49406564584124654".to_vec();
+            i.extend(std::iter::repeat(b'0').take(n));
+            (i, vec![], -340 - n as i32)
         }
     };
     let h = std::thread::Builder::new()
